@@ -49,6 +49,15 @@ H void h_thole(const double* posA, const double* posB, double dampA, double damp
   for (int i = 0; i < 3; i++) for (int j = 0; j < 3; j++) out[3 * i + j] = t(i, j);
 }
 #ifndef VERIF_NO_CART
+// both sites rotated about the origin by the real StaticSite::Rotate (positions and moments), then the pair energy
+H double h_energy_rot(const double* posA, const double* QA, long rankA, const double* posB, const double* QB, long rankB, const double* R) {
+  alignas(16) static char a[sizeof(PolarSite)], b[sizeof(PolarSite)], e[sizeof(eeInteractor)];
+  std::memset(a, 0, sizeof a); std::memset(b, 0, sizeof b); std::memset(e, 0, sizeof e);
+  mkstatic(a, posA, QA, rankA); mkstatic(b, posB, QB, rankB);
+  Eigen::Matrix3d Rm; for (int i = 0; i < 3; i++) for (int j = 0; j < 3; j++) Rm(i, j) = R[3 * i + j];
+  reinterpret_cast<StaticSite*>(a)->StaticSite::Rotate(Rm, Eigen::Vector3d::Zero()); reinterpret_cast<StaticSite*>(b)->StaticSite::Rotate(Rm, Eigen::Vector3d::Zero());
+  return reinterpret_cast<eeInteractor*>(e)->CalcStaticEnergy_site(*reinterpret_cast<StaticSite*>(a), *reinterpret_cast<StaticSite*>(b));
+}
 // the library's own spherical -> Cartesian (traceless) quadrupole conversion
 H void h_cart(const double* Q, long rank, double* out) {
   alignas(16) static char a[sizeof(PolarSite)]; std::memset(a, 0, sizeof a);
